@@ -217,6 +217,15 @@ def xs_of_secrets(ds):
     return sorted([x32(curve.mul_G(d)) for d in ds])
 
 
+def musig_keys_distinct(ds):
+    """the participants form a SET of keys: pairwise different x-only public keys"""
+    xs = xs_of_secrets(ds)
+    for i in range(len(xs) - 1):
+        if xs[i] == xs[i + 1]:
+            return False
+    return True
+
+
 def musig_agg_of_secrets(ds):
     return musig_agg_point(xs_of_secrets(ds))
 
